@@ -350,6 +350,82 @@ Section Accept.
   Qed.
 End Accept.
 
+(* ================================================================ *)
+(* bridge to the world model (Ledger/World.v): the message [collect] builds from a continuation transfer carries  *)
+(* exactly (f, args), and its delivery is an input of the delivered shape                                         *)
+(* ================================================================ *)
+Section WorldBridge.
+  Variable c : wcfg.
+  Notation shof := (wc_shard_of c).
+
+  Lemma continuation_is_builtin f : continuation_name f = true -> is_builtin f = true.
+  Proof.
+    intros H. apply bytes_in_In in H. unfold continuation_names in H. cbn [In] in H.
+    repeat (destruct H as [<-|H]; [vm_compute; reflexivity|]). contradiction.
+  Qed.
+
+  Lemma msg_of_continuation sh i id dest t f args :
+    tr_data t = msg_data f args -> continuation_name f = true -> (shof dest =? sh)%N = false ->
+    msg_of_transfer c sh i id dest t =
+    Some {| m_id := id; m_fn := f; m_caller := if (shof (tr_sender t) =? sh)%N then tr_sender t else i_rcpt i;
+            m_dest := dest; m_args := args; m_callType := tr_callType t; m_gasLimit := tr_gasLimit t;
+            m_locked := tr_gasLocked t; m_origin := sh; m_sender := i_caller i |}.
+  Proof.
+    intros Hd Hcn Hsh. unfold msg_of_transfer.
+    pose proof (continuation_name_valid f Hcn) as Hv.
+    pose proof (msg_data_parses_back f args Hv) as Hp. rewrite <- Hd in Hp.
+    destruct (tr_data t) as [|b r] eqn:Et.
+    { symmetry in Hd. apply msg_data_nil in Hd as [Hf _]. destruct Hv as [Hv _]. contradiction. }
+    rewrite Hp. rewrite (continuation_is_builtin f Hcn), Hsh. cbn [negb andb]. rewrite Bool.andb_false_r. reflexivity.
+  Qed.
+
+  Lemma deliver_input_shape m sh gas :
+    (shof (m_caller m) =? sh)%N = false -> m_caller m <> m_dest m ->
+    let i' := deliver_input c m sh gas in
+    delivered_shape i' /\ i_args i' = m_args m /\ i_caller i' = m_caller m /\ i_rcpt i' = m_dest m /\ i_gas i' = gas.
+  Proof. intros Hs Hne. cbv zeta. unfold delivered_shape, deliver_input. cbn. repeat split; assumption. Qed.
+
+  (* the environments of two shards of one world differ in self_shard only *)
+  Lemma env_at_same sh sh' :
+    cdc (env_at c sh') = cdc (env_at c sh) /\ shard_of (env_at c sh') = shard_of (env_at c sh)
+    /\ gas (env_at c sh') = gas (env_at c sh) /\ dns (env_at c sh') = dns (env_at c sh).
+  Proof. repeat split. Qed.
+
+  (* composition, for the multi-transfer: an accepted origin-side call on shard sh towards another shard puts exactly
+     one message in flight, and its delivery (any gas) passes the destination's guards *)
+  Theorem world_continuation_accepted_shape_multi sh i s o s' id :
+    codec_ok (wc_cdc c) ->
+    exec (env_at c sh) C.BuiltInFunctionMultiESDTNFTTransfer i s = (Ok o, s') ->
+    i_caller i = i_rcpt i -> shof (i_caller i) = sh -> shof (multi_dst i) <> sh ->
+    exists m, collect_accounts c sh i id (o_accounts o) = [m]
+      /\ m_fn m = C.BuiltInFunctionMultiESDTNFTTransfer /\ m_dest m = multi_dst i /\ m_caller m = i_caller i
+      /\ forall gas, multi_dest_guards (env_at c (shof (m_dest m))) (deliver_input c m (shof (m_dest m)) gas).
+  Proof.
+    intros Hc H Heq Hsh Hne. change (exec (env_at c sh) C.BuiltInFunctionMultiESDTNFTTransfer i) with (f_multi_transfer (env_at c sh) i) in H.
+    assert (Hs : multi_same (env_at c sh) i = false).
+    { unfold multi_same. cbn [self_shard shard_of env_at]. apply N.eqb_neq. fold (multi_dst i). congruence. }
+    destruct (continuation_accepted_shape_multi (env_at c sh) (env_at c (shof (multi_dst i))) Hc eq_refl _ _ _ _ H Heq Hs)
+      as (args' & t & Ho & Hd & _ & _ & Hg).
+    assert (Hts : tr_sender t = i_caller i /\ tr_data t = msg_data C.BuiltInFunctionMultiESDTNFTTransfer args').
+    { destruct (multi_sender_post (env_at c sh) Hc _ _ _ _ H Heq) as (lst & Hp).
+      pose proof (multi_out_accounts_cross (env_at c sh) _ _ _ _ _ Hp Hs) as Ho'. cbv zeta in Ho'.
+      rewrite Ho in Ho'. unfold one_transfer in Ho'. inversion Ho' as [Ht]. split; [reflexivity|]. rewrite <- Ht. exact Hd. }
+    destruct Hts as [Hts Hd'].
+    assert (Hsh' : (shof (multi_dst i) =? sh)%N = false) by (apply N.eqb_neq; exact Hne).
+    eexists. split.
+    { rewrite Ho. cbn [collect_accounts collect_transfers oc_addr oc_transfers].
+      rewrite (msg_of_continuation sh i id (multi_dst i) t _ args' Hd' eq_refl Hsh'). cbn [app]. reflexivity. }
+    cbn [m_fn m_dest m_caller]. rewrite Hts, Hsh, N.eqb_refl.
+    split; [reflexivity|]. split; [reflexivity|]. split; [reflexivity|].
+    intros gas. apply Hg; [reflexivity|].
+    apply deliver_input_shape; cbn [m_caller m_dest].
+    - rewrite Hsh. apply N.eqb_neq. congruence.
+    - intros Hx. apply Hne. rewrite <- Hx. exact Hsh.
+  Qed.
+End WorldBridge.
+
+Print Assumptions msg_of_continuation.
+Print Assumptions world_continuation_accepted_shape_multi.
 Print Assumptions continuation_accepted_shape_esdt.
 Print Assumptions continuation_accepted_shape_nft.
 Print Assumptions continuation_accepted_shape_multi.
